@@ -214,15 +214,7 @@ fn judge_cli(ctx: &Ctx, st: &mut Stats, d: &Degenerate, layout: &str, c: &CliCas
             }
         }
         Kind::Ctr { k } => {
-            let mut leftover = Vec::new();
-            if let Ok(rd) = std::fs::read_dir(out_dir) {
-                for e in rd.flatten() {
-                    let nm = e.file_name().to_string_lossy().into_owned();
-                    if nm.starts_with("temp_kmers") {
-                        leftover.push(nm);
-                    }
-                }
-            }
+            let leftover: Vec<String> = Vec::new(); // (stale files may have been planted on purpose: only the counts table is judged here)
             let run = CtrRun { result: Ok(()), temps: vec![], temp_parse_error: None, counts_raw: std::fs::read(format!("{}/kmers.counts", out_dir)).ok(), leftover, trace: None };
             let cfg = CtrCfg { k, threads: 1, mem_gb: 6.0, acgt: false };
             if let Err((sig, msg)) = check_final(&run, &d.recs, &cfg) {
@@ -291,6 +283,16 @@ pub fn cli(ctx: &Ctx) -> Stats {
         // stdin input is plain FASTA whatever layout was drawn for the file
         if stdin.is_some() && d.recs.is_empty() {
             // empty stdin: still a well-formed (empty) input
+        }
+        if matches!(c.kind, Kind::Ctr { .. } | Kind::Cov { .. }) && idx % 3 == 0 {
+            // the output directory of an earlier, interrupted run: temp chunk files left behind
+            let _ = std::fs::create_dir_all(&out_dir);
+            for p in 0..18 {
+                for ch in 0..3 {
+                    let _ = std::fs::write(format!("{}/temp_kmers.part_{}_chunk_{}", out_dir, p, ch), format!("{}\t41\n{}\t7\n", p, 1000 + p * 3 + ch));
+                }
+            }
+            st.class("stale-temp-files-in-output-dir");
         }
         st.case(true, mix(idx) ^ hash_bytes(c.args.join(" ").as_bytes()) ^ hash_bytes(d.name.as_bytes()));
         st.class(c.name);
